@@ -327,10 +327,10 @@ def init_aggregation_check():
 
 
 def search(ctx, escalate=False):
-    n = ctx.budget(40, 1000)
+    n = ctx.budget(96, 1500)
     if escalate:
         n = max(n, 300)
-    agg = explore.explore(ctx.seed, n, gen, oracle, workers=6)
+    agg = explore.explore(ctx.seed, n, gen, oracle, workers=12)
     try:
         agg["failures"].extend(init_aggregation_check())
     except Exception as e:
